@@ -10,7 +10,7 @@
 // Value semantics as implemented by Qt's implicit sharing: an object is a pointer to an IMMUTABLE block; copying copies the
 // pointer, every mutation builds a new block (copy + change).  Every access is at a literal slot index (a mutation under a
 // symbolic condition merges two block pointers, never produces a symbolic index).  Duplicates are kept (multi-hash).
-// Iteration order = slot order (Qt's order is unspecified).  Exceeding the capacity is a MODEL failure (inconclusive).
+// Iteration (const iterators, find, range-for) in slot order (Qt's order is unspecified).  Exceeding the capacity is a MODEL failure (inconclusive).
 // Blocks are never freed.
 #pragma once
 #include <QString>
@@ -107,6 +107,67 @@ public:
         }
         return r;
     }
+    // iterators: a position is a slot index; begin() / ++ move to the next slot in use (MH_CAP = end).  Under symbolic `used`
+    // flags the index is a small symbolic number; key() / value() select the slot by an if-then-else over literal indices.
+    // Read-only (the manager never writes through an iterator).
+    class const_iterator
+    {
+    public:
+        const VpMHBlk *b;
+        int i;
+        const_iterator() : b(nullptr), i(MH_CAP) { }
+        const_iterator(const VpMHBlk *blk, int idx) : b(blk), i(idx) { }
+        static int nextUsed(const VpMHBlk *blk, int after)   // smallest used slot index > after, else MH_CAP
+        {
+            int n = MH_CAP;
+            for (int j = MH_CAP - 1; j >= 0; j--) { if (j > after && blk->used[j]) n = j; }
+            return n;
+        }
+        const QString &key() const { const QString *r = &b->k[0]; for (int j = 1; j < MH_CAP; j++) { if (i == j) r = &b->k[j]; } vp_c18_limit(i >= 0 && i < MH_CAP); return *r; }
+        const QByteArray &value() const { const QByteArray *r = &b->v[0]; for (int j = 1; j < MH_CAP; j++) { if (i == j) r = &b->v[j]; } vp_c18_limit(i >= 0 && i < MH_CAP); return *r; }
+        const QByteArray &operator*() const { return value(); }
+        const QByteArray *operator->() const { return &value(); }
+        const_iterator &operator++() { i = nextUsed(b, i); return *this; }
+        const_iterator operator++(int) { const_iterator r = *this; i = nextUsed(b, i); return r; }
+        bool operator==(const const_iterator &o) const { return i == o.i; }
+        bool operator!=(const const_iterator &o) const { return i != o.i; }
+    };
+    using iterator = const_iterator;
+    using ConstIterator = const_iterator;
+    using Iterator = const_iterator;
+    const_iterator begin() const { return const_iterator(b, const_iterator::nextUsed(b, -1)); }
+    const_iterator end() const { return const_iterator(b, MH_CAP); }
+    const_iterator cbegin() const { return begin(); }
+    const_iterator cend() const { return end(); }
+    const_iterator constBegin() const { return begin(); }
+    const_iterator constEnd() const { return end(); }
+    const_iterator find(const QString &key) const
+    {
+        int n = MH_CAP;
+        for (int j = MH_CAP - 1; j >= 0; j--) { bool hit = vpEqS(b->k[j], key) && b->used[j]; if (hit) n = j; }
+        return const_iterator(b, n);
+    }
+    const_iterator find(const QString &key, const QByteArray &value) const
+    {
+        int n = MH_CAP;
+        for (int j = MH_CAP - 1; j >= 0; j--) { bool hit = vpEqS(b->k[j], key) && vpEqB(b->v[j], value) && b->used[j]; if (hit) n = j; }
+        return const_iterator(b, n);
+    }
+    const_iterator constFind(const QString &key) const { return find(key); }
+    const_iterator constFind(const QString &key, const QByteArray &value) const { return find(key, value); }
+    int count(const QString &key) const { int n = 0; for (int i = 0; i < MH_CAP; i++) { bool hit = vpEqS(b->k[i], key) && b->used[i]; n += hit ? 1 : 0; } return n; }
+    int count(const QString &key, const QByteArray &value) const { int n = 0; for (int i = 0; i < MH_CAP; i++) { bool hit = vpEqS(b->k[i], key) && vpEqB(b->v[i], value) && b->used[i]; n += hit ? 1 : 0; } return n; }
+    QList<QString> keys() const { QList<QString> r; for (int i = 0; i < MH_CAP; i++) { if (b->used[i]) r.append(b->k[i]); } return r; }
+    QByteArray value(const QString &key) const { QByteArray r; for (int i = MH_CAP - 1; i >= 0; i--) { bool hit = vpEqS(b->k[i], key) && b->used[i]; if (hit) r = b->v[i]; } return r; }
+    int remove(const QString &key, const QByteArray &value)
+    {
+        VpMHBlk *n = new VpMHBlk(*b);
+        int r = 0;
+        for (int i = 0; i < MH_CAP; i++) { bool eq = vpEqS(n->k[i], key) && vpEqB(n->v[i], value); r += (eq && n->used[i]) ? 1 : 0; n->used[i] = n->used[i] && !eq; }
+        b = n;
+        return r;
+    }
+    void clear() { b = vp_c18_mh_empty; }
     // model internals (the storage model plants entries at literal slots)
     void plant(int i, bool u, const QString &key, const QByteArray &value)
     {
@@ -124,6 +185,7 @@ public:
     const VpMH value(const bool &key) const { return key ? s[1] : s[0]; }
     VpMH &operator[](const bool &key) { return key ? s[1] : s[0]; }
     bool isEmpty() const { return s[0].isEmpty() && s[1].isEmpty(); }
+    bool contains(const bool &key) const { return key ? !s[1].isEmpty() : !s[0].isEmpty(); }
 };
 
 // only the two levels the manager asks for (Authenticated | ManuallyDistrusted) have a slot; any other level is a model limit
@@ -139,6 +201,8 @@ public:
     VpMH s[2];
     const VpMH value(const QXmpp::TrustLevel &key) const { return vpLevelSlot(key) == 0 ? s[0] : s[1]; }
     VpMH &operator[](const QXmpp::TrustLevel &key) { return vpLevelSlot(key) == 0 ? s[0] : s[1]; }
+    bool contains(const QXmpp::TrustLevel &key) const { return vpLevelSlot(key) == 0 ? !s[0].isEmpty() : !s[1].isEmpty(); }
+    bool isEmpty() const { return s[0].isEmpty() && s[1].isEmpty(); }
 };
 
 template<> class QHash<QString, VpMH>
